@@ -259,7 +259,19 @@ fn add_op(rng: &mut Rng, used: &mut Vec<u16>, allow_dup: bool) -> String {
                 9 => *rng.pick(&[1021usize, 1024, 1500, 2049, 4096]) + rng.below(4) as usize,
                 _ => rng.below(40) as usize,
             };
-            let v = rng.bytes(n);
+            let mut v = rng.bytes(n);
+            if rng.chance(1, 6) {
+                // DATA-like payloads: the value itself ends in (or is) an encoded attribute of an ending type, as when a STUN
+                // message travels inside another one; 4-aligned so that these bytes are the last bytes of the attribute
+                let pre = 4 * rng.below(5) as usize;
+                v = rng.bytes(pre);
+                match rng.below(4) {
+                    0 => { v.extend([0x80, 0x28, 0x00, 0x04]); v.extend(rng.bytes(4)); }
+                    1 => { v.extend([0x00, 0x08, 0x00, 0x14]); v.extend(rng.bytes(20)); }
+                    2 => { v.extend([0x00, 0x1c, 0x00, 0x20]); v.extend(rng.bytes(32)); }
+                    _ => { v.extend([0x00, 0x08, 0x00, 0x14]); v.extend(rng.bytes(20)); v.extend([0x80, 0x28, 0x00, 0x04]); v.extend(rng.bytes(4)); }
+                }
+            }
             return format!("{}/{:04x}/{}", if rng.chance(1, 2) { "r" } else { "ro" }, ty, hex_or_dash(&v));
         }
     }
